@@ -34,6 +34,7 @@ var pureGetters = map[string]bool{
 	"hsms.ConnectionConfig.Logger":   true,
 	"secs1.ConnectionConfig.Logger":  true,
 	"hsmsss.hexDumpFrame":            true, // hex.EncodeToString of the frame, for the trace log
+	"hsmsss.transport.clock":         true, // the injectable clock (t.now, or time.Now): only ever passed for an opaque parameter
 }
 
 // asEffect: repository functions / methods that are NOT translated although they have a body: a call is
@@ -120,6 +121,7 @@ func effectTablesDoc() string {
 		sb.WriteString("--   " + k + ": " + asEffect[k] + "\n")
 	}
 	fmt.Fprintf(&sb, "-- loops without an evident trip count are unrolled %d times (Go.loopWhileM; none = still running).\n", loopFuel)
+	sb.WriteString(ioTablesDoc())
 	return sb.String()
 }
 
@@ -197,6 +199,9 @@ func (t *tr) ltVar(v *types.Var, what string) ltype {
 	if t.opaqueVars[v] {
 		return ltype{k: kOpaque, lean: "Bool", arrLen: -1}
 	}
+	if t.inoutPtr(v) {
+		return t.lt(inoutElem(v), what)
+	}
 	return t.lt(v.Type(), what)
 }
 
@@ -236,6 +241,10 @@ func (t *tr) resParts(vals []string) []string {
 		parts = append(parts, t.names[t.recvParam])
 	}
 	parts = append(parts, vals...)
+	vs, _ := t.inoutParams()
+	for _, v := range vs {
+		parts = append(parts, t.names[v]) // in-out parameters: their final values
+	}
 	parts = append(parts, "tr_")
 	if t.useOrc {
 		parts = append(parts, "orc_")
@@ -982,7 +991,13 @@ func (t *tr) oracleResult(ty types.Type, at ast.Node) string {
 		bail("the result (%s) of an untranslated call is used but has no oracle representation at %s", ty, t.pos(at))
 	}
 	n := t.fresh1("t_")
-	t.let(n, lt.lean, "(Go.orc orc_)."+conv)
+	val := "(Go.orc orc_)." + conv
+	if lt.k == kInt && t.wrapOrc {
+		if it := intInfo(ty); it.isInteger && it.bits != 0 {
+			val = wrapTo(it, val) // foreignEffects: a result of a bounded integer type is in its range whatever the oracle says
+		}
+	}
+	t.let(n, lt.lean, val)
 	t.let("orc_", "List Go.Val", "orc_.tail")
 	return n
 }
@@ -1066,8 +1081,12 @@ func (t *tr) receiverIsOpaque(e ast.Expr, name string, at ast.Node) {
 }
 
 // effCalleeCall: a call of a translated effect-mode function.
-func (t *tr) effCalleeCall(callee *fnOut, x *ast.CallExpr, sig *types.Signature, args []string) string {
+func (t *tr) effCalleeCall(callee *fnOut, x *ast.CallExpr, sig *types.Signature, args []string, backTo []*types.Var) string {
 	t.needEff()
+	if callee.fuel {
+		t.needFuel()
+		args = append(args, "fuel_")
+	}
 	if callee.useOrc {
 		t.needOrc()
 		args = append(args, "orc_")
@@ -1099,6 +1118,12 @@ func (t *tr) effCalleeCall(callee *fnOut, x *ast.CallExpr, sig *types.Signature,
 		vals = append(vals, n)
 		pat = append(pat, n)
 	}
+	var backNames []string
+	for range callee.inout {
+		n := t.fresh1("t_")
+		backNames = append(backNames, n)
+		pat = append(pat, n)
+	}
 	trn := t.fresh1("t_")
 	pat = append(pat, trn)
 	orn := ""
@@ -1125,6 +1150,10 @@ func (t *tr) effCalleeCall(callee *fnOut, x *ast.CallExpr, sig *types.Signature,
 	if callee.recvW {
 		root, text := t.update(recvAST, rn)
 		t.let(t.names[root], t.ltVar(root, "variable "+root.Name()).lean, text)
+	}
+	for i, v := range backTo {
+		// the in-out arguments take their values back
+		t.let(t.names[v], t.ltVar(v, "variable "+v.Name()).lean, backNames[i])
 	}
 	t.let("tr_", "List Go.Effect", "tr_ ++ "+trn)
 	if callee.useOrc {
@@ -1349,6 +1378,12 @@ func (t *tr) whileLoop(s *ast.ForStmt, tail []ast.Stmt, k func() string, ind str
 	sigma := t.tupleType(vars)
 	st := t.fresh1("st_")
 	initTuple := t.tupleOf(vars)
+	// the variables in scope on entry (candidates for the parameters of the named loop pieces, translate_io.go)
+	var scope []*types.Var
+	for v := range t.names {
+		scope = append(scope, v)
+	}
+	sort.Slice(scope, func(i, j int) bool { return scope[i].Pos() < scope[j].Pos() })
 
 	savedLoop, savedBrk, savedCont := t.inLoop, t.brk, t.cont
 	defer func() { t.inLoop, t.brk, t.cont = savedLoop, savedBrk, savedCont }()
@@ -1380,17 +1415,74 @@ func (t *tr) whileLoop(s *ast.ForStmt, tail []ast.Stmt, k func() string, ind str
 	t.inLoop, t.brk, t.cont = savedLoop, savedBrk, savedCont
 
 	rho := t.resLean()
-	e := fmt.Sprintf("Go.loopWhileM (σ := %s) (ρ := %s)\n%s  %s\n%s  %s\n%s  %s\n%s  %d %s", sigma, rho, ind, condF, ind, bodyF, ind, postF, ind, loopFuel, initTuple)
+	fuel := fmt.Sprint(loopFuel)
+	if t.fuelP {
+		fuel = "fuel_"
+	}
+	e := fmt.Sprintf("Go.loopWhileM (σ := %s) (ρ := %s)\n%s  %s\n%s  %s\n%s  %s\n%s  %s %s", sigma, rho, ind, condF, ind, bodyF, ind, postF, ind, fuel, initTuple)
+	if t.fuelP {
+		e = t.namedLoop(sigma, rho, condF, bodyF, postF, scope, vars, initTuple)
+	}
 	r := t.fresh1("r_")
 	okPat := t.tupleOf(vars)
 	if len(vars) == 0 {
 		okPat = "_"
 	}
+	var after string
 	if len(tail) == 0 && k == nil {
-		bail("loop at the end of a function without a following return at %s", t.pos(s))
+		// nothing follows the loop: legal Go only for `for { … }` that is never left by break
+		if s.Cond != nil || hasBreak(s.Body) {
+			bail("loop at the end of a function without a following return at %s", t.pos(s))
+		}
+		after = "none" // unreachable: Go.loopWhileM with a constant-true condition and no .brk never yields .ok
+	} else {
+		after = t.stmts(tail, k, ind+"    ")
 	}
-	after := t.stmts(tail, k, ind+"    ")
 	m := fmt.Sprintf("| .error %s => %s\n%s  | .ok %s =>\n%s    %s", r, t.ret(r), ind, okPat, ind, after)
 	res := t.fresh1("res_")
 	return out + fmt.Sprintf("(%s).bind fun %s =>\n%s(match %s with\n%s  %s)", e, res, ind, res, ind, m)
+}
+
+// hasBreak: body contains a break that targets the enclosing loop.
+func hasBreak(body *ast.BlockStmt) bool {
+	found := false
+	var walk func(n ast.Node, depth int)
+	walk = func(n ast.Node, depth int) {
+		if n == nil || found {
+			return
+		}
+		switch s := n.(type) {
+		case *ast.BranchStmt:
+			if s.Tok == token.BREAK && (depth == 0 || s.Label != nil) {
+				found = true
+			}
+		case *ast.ForStmt:
+			walk(s.Body, depth+1)
+		case *ast.RangeStmt:
+			walk(s.Body, depth+1)
+		case *ast.SwitchStmt:
+			walk(s.Body, depth+1)
+		case *ast.SelectStmt:
+			walk(s.Body, depth+1)
+		case *ast.BlockStmt:
+			for _, c := range s.List {
+				walk(c, depth)
+			}
+		case *ast.IfStmt:
+			walk(s.Body, depth)
+			walk(s.Else, depth)
+		case *ast.CaseClause:
+			for _, c := range s.Body {
+				walk(c, depth)
+			}
+		case *ast.CommClause:
+			for _, c := range s.Body {
+				walk(c, depth)
+			}
+		case *ast.LabeledStmt:
+			walk(s.Stmt, depth)
+		}
+	}
+	walk(body, 0)
+	return found
 }
